@@ -344,7 +344,7 @@ class C04(Engine):
 		'(op kind, failed?) that precede a judged answer. Plus exec-fresh interpreters under other PYTHONHASHSEED values.')
 	quick_runs = 90
 	thorough_runs = 3000
-	quick_budget_s = 90.0
+	quick_budget_s = 70.0
 	thorough_budget_s = 1500.0
 	components_real = ['App/LazyDI wiring', 'Modules', 'ModuleLoader', 'Entrypoints + per-module DI (combine)', 'NodeResolver/Nodes/Node memo', 'SymbolDB', 'all preprocessors', 'Reflections', 'Py2Cpp (Procedure, dependency stack)', 'Renderer', 'Interactive.rebuild_module', 'Runner']
 	components_stubbed = Engine.components_stubbed + ['no terminal: Interactive is driven through rebuild_module/transpile (the loop itself is C07)']
@@ -431,7 +431,7 @@ class C04(Engine):
 
 	def execute(self, case: dict[str, Any]) -> dict[str, Any]:
 		if case.get('kind') == 'hashseed':
-			res = exec_spot_checks(1, pool=case['pool'])
+			res = exec_spot_checks(1, pool=case['pool'], hashseeds=case.get('hashseeds'))
 			vs = [{'class': 'hash-seed-changes-output', 'detail': m['detail'], 'known': None, 'sig': 'hashseed'} for m in res['mismatches']]
 			return {'violations': vs, 'counters': {}, 'distinct': [], 'states': [], 'log': digest(res['mismatches']), 'processes': 0, 'sim_time_s': 0.0}
 		return C04Runner(case).execute()
@@ -448,7 +448,7 @@ class C04(Engine):
 		return {'shape': case['pool']['shape'], 'modules': case['pool']['modules'], 'flavour': case.get('flavour'), 'cache': str(case.get('cache')), 'ops': [{k: (v if k != 'text' else v[:40] + '...') for k, v in op.items()} for op in case['ops'][:16]]}
 
 
-def exec_spot_checks(n: int, pool: dict[str, Any] | None = None) -> dict[str, Any]:
+def exec_spot_checks(n: int, pool: dict[str, Any] | None = None, hashseeds: list[str] | None = None) -> dict[str, Any]:
 	"""Fresh answers recomputed in exec'd interpreters under PYTHONHASHSEED 0, 1 and a seeded value must agree with each other (hash-seed clause)
 	and with the fork-fresh answer."""
 	from tranpsim.core import master_seed, rng_for
@@ -462,7 +462,7 @@ def exec_spot_checks(n: int, pool: dict[str, Any] | None = None) -> dict[str, An
 		try:
 			spec = {'root': proj.sc.root, 'modules': this_pool['modules'], 'cache_enabled': False}
 			answers = {}
-			hs = ['0', '1', str(rng.randrange(2, 4_000_000))]
+			hs = list(hashseeds) if hashseeds else ['0', '1', str(rng.randrange(2, 4_000_000))]
 
 			def one(h: str) -> dict[str, Any]:
 				env = dict(os.environ, PYTHONHASHSEED=h, VERIF_REPO=boot.REPO)
@@ -483,7 +483,7 @@ def exec_spot_checks(n: int, pool: dict[str, Any] | None = None) -> dict[str, An
 			for h, a in answers.items():
 				if a != base:
 					m = next(m for m in this_pool['modules'] if a.get(m) != base.get(m))
-					mismatches.append({'case': {'pool': this_pool, 'ops': [], 'kind': 'hashseed'}, 'detail': {'hashseed_or_fork': h, 'module': m, **line_diff(a.get(m), base.get(m))}})
+					mismatches.append({'case': {'pool': this_pool, 'ops': [], 'kind': 'hashseed', 'hashseeds': hs}, 'detail': {'hashseed_or_fork': h, 'module': m, **line_diff(a.get(m), base.get(m))}})
 			done += 1
 		finally:
 			proj.destroy()
